@@ -7,12 +7,14 @@ cd "$WT" || exit 2
 DEMO=$(find . -name 'zz_*_test.go' | head -1)
 [ -n "$DEMO" ] || { echo "no demo"; exit 2; }
 PKG=$(dirname "$DEMO")
+TAGS=""
+grep -q "go:build verif" "$DEMO" && TAGS="-tags verif"
 cp patch.diff "$OUT/patch.diff"; cp "$DEMO" "$OUT/$(basename $DEMO)"
 git diff --quiet -- . ':!patch.diff' && git apply patch.diff   # make sure the patch is applied
 go build ./... > "$OUT/build.log" 2>&1; B=$?
-go test -vet=off -count=1 -timeout 10m -run 'TestZZ' "$PKG" > "$OUT/demo_with_patch.log" 2>&1; W=$?
+go test $TAGS -vet=off -count=1 -timeout 10m -run 'TestZZ|TestSeeded' "$PKG" > "$OUT/demo_with_patch.log" 2>&1; W=$?
 git apply -R patch.diff
-go test -vet=off -count=1 -timeout 10m -run 'TestZZ' "$PKG" > "$OUT/demo_without_patch.log" 2>&1; WO=$?
+go test $TAGS -vet=off -count=1 -timeout 10m -run 'TestZZ|TestSeeded' "$PKG" > "$OUT/demo_without_patch.log" 2>&1; WO=$?
 git apply patch.diff
 mv "$DEMO" /tmp/$(basename $WT)-demo.go.aside
 go test -mod=mod -json -vet=off -count=1 -timeout 25m ./... > "$OUT/suite.json" 2> "$OUT/suite.err"
